@@ -459,6 +459,9 @@ def check_C08(A, R, tier):
     rule_failed_edges_untouched(A, R, "R8.3")
     # R8.4: own records come and go in pairs
     pair_rule(A, R, "R8.4")
+    # R8.5 (= R18.6): 'exactly as before' - the carried-over records reach new_history as they were passed in
+    from rules_protocol import rule_setup_faithful
+    rule_setup_faithful(A, R, "R8.5", parts=("history",))
     R.explanation = ("Mechanism of each sentence, decided over all paths: history_output becomes Some only in the success event (for the "
                      "named running job, never on a path that constructs an error) and in the skip handler (recorded value only); "
                      "new_history, run abstractly for every final point (state, no output, started), removes both own records and "
@@ -565,6 +568,9 @@ def check_C09(A, R, tier):
     rule_no_skip_when_invalidated(A, R, "R9.3")
     # R9.4 (= R18.5 own records): the carried-over records of a present job pass the history filter whatever their value
     rule_filter_keeps_own(A, R, "R9.4")
+    # R9.5 (= R18.6): ... and they reach the filter as they were passed in
+    from rules_protocol import rule_setup_faithful
+    rule_setup_faithful(A, R, "R9.5", parts=("history",))
     R.explanation = ("First sentence decided: for every final point (state in upstream-failed/aborted, never started) the abstract run of "
                      "new_history reaches no removal keyed by the job and writes no per-dependency record into it; 'never started' is "
                      "the ghost bit 'passed Running', identified with a bool field of NodeInfo that is false at creation and set exactly "
@@ -901,6 +907,10 @@ def check_C18(A, R, tier):
         R.ob("R18.2", "new_history | %s %s record | keyed by a job / dependency of the current graph" % (v["op"], ck[0]), ok,
              detail="key %s" % (ck,), site=A.site(v))
     rule_no_bulk_removal(A, R, "R18.2")
+    # R18.6: 'the history it was given' - the constructor stores it unchanged, the id map (which decides who is a present job)
+    # holds each job under its own id only
+    from rules_protocol import rule_setup_faithful
+    rule_setup_faithful(A, R, "R18.6", parts=("add_node", "history"))
     # R18.3 / R18.5: the filter closure ------------------------------------------------------------
     fcl = hf["closure"] if hf else None
     R.ob("R18.3", "new_history | the history filter closure is identified", fcl is not None)
